@@ -690,7 +690,7 @@ func runC16(c *checker, r *rng.R) {
 	scs = nil
 
 	// 3. several plugins with independent random scripts
-	nMulti := 900
+	nMulti := 1500
 	if thorough {
 		nMulti = 6000
 	}
